@@ -85,7 +85,8 @@ def plan(tier, seed):
 
 def required(tier):
     kinds = ['missing-required', 'extra-field-set', 'missing-field-set',
-             'identified-into-unidentified', 'unidentified-into-identified']
+             'identified-into-unidentified', 'unidentified-into-identified',
+             'same-names-other-definitions']
     cl = ['A:missing-required@0-file-creation-pending',
           'A:rejected-first-add-of-other-identification-kind']
     for kd in kinds:
@@ -210,6 +211,13 @@ def add_faults(rng, workdir, rec, k):
             f = rng.choice(['starting_mass', 'total_fuel_mass'] + (['o_s'] if with_other else []))
             t._data[f] = None           # == the field was never set
             return t, f
+        if kind == 'same-names-other-definitions':
+            uid[0] += 1
+            t = trajgen.make_base_traj(nprng, npts, uid[0],
+                                       flight_id=new_id() if identified else None)
+            t.add_fields(vf.VX_OTHER2)
+            vf.fill(t, 'vx_other2', rng)
+            return t, 'vx_other2'
         if kind == 'extra-field-set':
             return mk(new_id() if identified else None, True), 'vx_other'
         if kind == 'missing-field-set':
@@ -225,6 +233,8 @@ def add_faults(rng, workdir, rec, k):
     def applicable():
         ks = ['missing-required']
         ks.append('missing-field-set' if with_other else 'extra-field-set')
+        if with_other:
+            ks.append('same-names-other-definitions')
         ks.append('unidentified-into-identified' if identified else
                   'identified-into-unidentified')
         return ks
@@ -506,7 +516,7 @@ def interrupted_merges(rng, workdir, rec, k, family, line_budget):
     from vlib import failpoints as fp
     from vlib.storeops import Mismatch as M
 
-    nin = rng.randint(2, 4)
+    nin = rng.choice([1, 2, 2, 3, 4])
     identified = rng.random() < 0.6
     pristine = workdir / f'p{rng.getrandbits(40):x}'
     pristine.mkdir()
